@@ -17,6 +17,7 @@ import SarpyModel.Drivers.Checker
 import SarpyModel.Drivers.Ortho
 import SarpyModel.Drivers.Chip
 import SarpyModel.Drivers.Supported
+import SarpyModel.Drivers.Segment
 namespace Sarpy.Drivers
 
 def step (line : String) : String :=
@@ -41,6 +42,7 @@ def step (line : String) : String :=
   | "ortho" :: rest => (orthoStep rest).getD "bad-op"
   | "chip" :: rest => (chipStep rest).getD "bad-op"
   | "supported" :: rest => (supportedStep rest).getD "bad-op"
+  | "seg" :: rest => (segStep rest).getD "bad-op"
   | _ => "bad-op"
 
 partial def loop (h : IO.FS.Stream) : IO Unit := do
